@@ -25,7 +25,10 @@ type Observed struct {
 	DeathFree   bool
 }
 
+// Observe takes the final snapshot of a run and then shuts the generations that are still alive down (their runner and
+// worker goroutines would otherwise stay for the life of the process; thousands of runs share one process).
 func (e *Env) Observe(deathFree bool) *Observed {
+	defer e.shutdown()
 	return &Observed{Recs: e.hist.Snapshot(), Logs: e.store.Logs(), CommitSteps: e.store.CommitSteps(), Batches: append([]BatchRec{}, e.store.Batches...), Msgs: e.bus.Snapshot(), DeathFree: deathFree}
 }
 
@@ -54,6 +57,9 @@ func logTag(l *ledger.ChainedLog) string {
 	case ledger.RevertedTransactionLogPayload:
 		return "rv:" + d.RevertedTransactionID.String()
 	case ledger.SetMetadataLogPayload:
+		if id, ok := d.TargetID.(string); ok && strings.HasPrefix(id, "tagged:") && d.Metadata["req"] == "" {
+			return id
+		}
 		return d.Metadata["req"]
 	case ledger.DeleteMetadataLogPayload:
 		return d.Key
